@@ -292,6 +292,16 @@ def handleShell (c : Ctx) (toks : List String) : Option (Ctx × List String) :=
     setTab fun t => { t with UPD := t.UPD.insert (keyV x) (.ok { f0, f0Old, grad, G }) }
   | ["SC", r] => (parseRes r parseF).bind fun r => setTab fun t => { t with SC := r }
   | ["run"] => some (c, runShell c)
+  | ["ls", x0, f0, g0, d, nit, maxIter] => do
+    let x0 ← parseV x0; let f0 ← parseF f0; let g0 ← parseV g0; let d ← parseV d
+    let nit ← nit.toNat?; let maxIter ← maxIter.toNat?
+    let cfg ← c.cfg.toCfg
+    let sf : SF Float := SF.new cfg.mode x0 cfg.lb cfg.ub
+    match lineSearch c.tabs.shellUser c.tabs.oracles cfg x0 f0 g0 d nit sf maxIter [] with
+    | .error e => some (c, [s!"err {e}"])
+    | .ok (sf', stp?, olog) =>
+      let r := match stp? with | none => "none" | some s => showF s
+      some (c, [s!"ls {r} {sf'.nfev} {sf'.ngev}", s!"log {showLog sf'.log}"] ++ olog.map showOReq ++ ["end"])
   | ["bench", name, x] => do
     let x ← parseV x
     let arr := x.toArray
